@@ -63,6 +63,10 @@ FAMILIES = [
      lambda k: "#fn f() => asm { m }\n#ruledef\n{\n    m => f()\n}\nm\n"),
     ("rule-fn-cycle", -1, True, [1, 2], lambda k: "#fn f(x) => asm { m {x} }\n#ruledef\n{\n    m {x} => f(x)\n}\nm 1\n"),
     ("include-cycle", -1, True, [1, 2, 3, 4], None),
+    # a rule with k comma-separated expression parameters, matched against k operands (F66: the time was exponential in k)
+    ("rule-params", -1, False, "params",
+     lambda k: "#ruledef\n{\n    go %s => %s\n}\ngo %s\n" % (", ".join("{p%d}" % i for i in range(k)), " @ ".join("p%d`8" % i for i in range(k)),
+                                                               ", ".join(str(i) for i in range(k)))),
 ]
 
 POW_FAMILIES = [
@@ -165,6 +169,8 @@ def run_c19(ck):
     digs = [3, 10, 19, 20, 21, 40, 400] if quick else [1, 3, 9, 10, 18, 19, 20, 21, 25, 40, 100, 400, 4000]
     plan = []      # (family, limit, cycle, mag, files, args)
     for name, limit, cycle, mags, gen in FAMILIES:
+        if mags == "params":
+            mags = [2, 8, 14, 20, 40] if quick else [2, 4, 8, 12, 14, 16, 20, 40, 100]
         for m in (mags or depths):
             if name == "include-chain":
                 mm = min(m, 3000)
